@@ -9,12 +9,12 @@
   Contents
    (1) level discipline:   `covering_levels`, `interiorCovering_levels`, `coveringWith_levels`,
                            `cellUnion_levels` (+ the documented exception, shown by example),
-                           `fastCovering_levels_partial` and the COUNTEREXAMPLE `fastCovering_levels_false`
-                           (S18: FastCovering violates LevelMod when normalizeCovering re-covers with
-                           default options);
+                           `fastCovering_levels` (full strength since repair e130a30; the former S18
+                           counterexample is kept as an `example` that now evaluates to face 0),
+                           `covering_levels_from_bound` (end to end, no side condition);
    (2) covering soundness: `rawResult_covers`, `covering_covers`;
    (3) interior:           `rawResult_interior`, `interiorCovering_inside`;
-   (4) totality:           `coverLoop_terminates`;
+   (4) totality:           `coverLoop_terminates`, `normalizeCovering_merge_terminates` (hang repaired);
    (5) `isCanonical_sound` (accepted coverings are valid, on the grid, sorted and disjoint).
 -/
 import S2Proofs.C05.Levels
@@ -23,6 +23,8 @@ import S2Proofs.C05.Sort
 import S2Proofs.C05.Init
 import S2Proofs.C05.Fast
 import S2Proofs.C05.Canonical
+import S2Proofs.Properties.C11
+import S2Proofs.C05.MergeTerm
 open S2 S2.CellID S2.CellUnion S2.Coverer
 namespace S2Proofs.C05
 
@@ -77,20 +79,25 @@ theorem coveringInternal_res {ops : PQOps Q} (law : LawfulPQ ops) {cfg : Config}
     have h1 : cfg.levelMod = 1 := by have := h.mod_ge; omega
     exact ⟨k, hk, ⟨by omega, by rw [h1]; omega⟩, hkt⟩
 
-/-- (1a) LEVEL DISCIPLINE of `Covering` and `InteriorCovering`, for every configuration, every
-    region, every pop order: each returned cell is valid, has `minLevel ≤ level ≤ maxLevel` and
-    `(level - minLevel) % levelMod = 0`. -/
-theorem coveringWith_levels {ops : PQOps Q} (law : LawfulPQ ops) (o : Options) (interior : Bool)
+/-- `Covering` / `InteriorCovering`: cells are valid, on the grid, `≤ top` -/
+theorem coveringWith_res {ops : PQOps Q} (law : LawfulPQ ops) (o : Options) (interior : Bool)
     (R : Region) (start : CU) (hs : StartOK (newCoverer o) start) :
-    ∀ c ∈ coveringWith ops o interior R start, LevelsOK (newCoverer o) c := by
+    ∀ c ∈ coveringWith ops o interior R start, CellAt (Res (newCoverer o)) c := by
   have h := newCoverer_ok o
   intro c hc
-  apply levelsOK_of_res
   unfold coveringWith cellUnionWith at hc
   refine denormalize_levels h _ ?_ c hc
   apply normalize_levels
   intro x hx
   exact (coveringInternal_res law h interior R start hs x hx).mono (fun k _ hk => hk.2)
+
+/-- (1a) LEVEL DISCIPLINE of `Covering` and `InteriorCovering`, for every configuration, every
+    region, every pop order: each returned cell is valid, has `minLevel ≤ level ≤ maxLevel` and
+    `(level - minLevel) % levelMod = 0`. -/
+theorem coveringWith_levels {ops : PQOps Q} (law : LawfulPQ ops) (o : Options) (interior : Bool)
+    (R : Region) (start : CU) (hs : StartOK (newCoverer o) start) :
+    ∀ c ∈ coveringWith ops o interior R start, LevelsOK (newCoverer o) c :=
+  fun c hc => levelsOK_of_res (coveringWith_res law o interior R start hs c hc)
 
 /-- (1a) for Go's own queue: `RegionCoverer.Covering` -/
 theorem covering_levels (o : Options) (R : Region) (start : CU) (hs : StartOK (newCoverer o) start) :
@@ -137,56 +144,78 @@ example : StartOK (newCoverer ⟨1, 30, 3, 8⟩) [fromFace 0] ∧
   · simp only [covering, cellUnionWith, coveringWith, coveringInternal, normalize, sortIDs_eq_isort]
     decide +kernel
 
-/-! ### FastCovering: the level discipline is FALSE (S18) -/
+/-! ### FastCovering (after repair e130a30: the re-cover branch uses the coverer's own options) -/
 
-/-- `NewRegionCoverer().Covering(&cu)` as the model computes it, for any start cells of that inner
-    search which satisfy the start contract of the default options -/
-def InnerStartOK (innerStart : CU → CU) : Prop := ∀ cu, StartOK (newCoverer defaultOptions) (innerStart cu)
+theorem newCoverer_optionsOf {cfg : Config} (h : CfgOK cfg) : newCoverer (optionsOf cfg) = cfg := by
+  have h1 := h.min_le; have h2 := h.max_le; have h3 := h.mod_ge; have h4 := h.mod_le
+  obtain ⟨a, b, c, m⟩ := cfg
+  simp only [] at h1 h2 h3 h4
+  simp only [newCoverer, optionsOf, clamp, Config.mk.injEq]
+  refine ⟨?_, ?_, ?_, trivial⟩ <;> omega
+
+/-- the temporary coverer's results are valid start cells for the outer coverer -/
+theorem startOK_of_temp_res {cfg : Config} (h : CfgOK cfg) {cu : CU}
+    (hr : ∀ c ∈ cu, CellAt (Res (newCoverer (tempOptions cfg))) c) : StartOK cfg cu := by
+  intro c hc
+  obtain ⟨h0, hM, h1⟩ := newCoverer_tempOptions h
+  obtain ⟨k, hk, _, ht⟩ := hr c hc
+  have : top (newCoverer (tempOptions cfg)) = cfg.maxLevel := by
+    unfold top; rw [h0, hM, h1]; simp [Nat.mod_one]
+  exact ⟨(isValid_iff c).mpr ⟨k, hk⟩, by rw [hk.level_eq]; omega⟩
+
+/-- `normalizeCovering` with the re-cover recursion of the code (any depth, any geometry oracle
+    `geo` = `CellUnionBound()` of a cell union returning valid cells): valid cells on the grid. -/
+theorem normalizeCoveringRec_res (geo : CU → CU) (hgeo : ∀ cu, ∀ c ∈ geo cu, isValid c = true) :
+    ∀ (fuel : Nat) (cfg : Config), CfgOK cfg → ∀ (cov : CU), (∀ c ∈ cov, isValid c = true) →
+      ∀ c ∈ normalizeCoveringRec fuel geo cfg cov, CellAt (Res cfg) c := by
+  intro fuel
+  induction fuel with
+  | zero =>
+    intro cfg h cov hb
+    unfold normalizeCoveringRec
+    exact normalizeCovering_levels_of_recover h _ cov hb (fun _ hc => hc)
+  | succ fuel ih =>
+    intro cfg h cov hb
+    unfold normalizeCoveringRec
+    apply normalizeCovering_levels_of_recover h _ cov hb
+    intro cu _ c hc
+    unfold recoverOwn covering at hc
+    have hs : StartOK (newCoverer (optionsOf cfg))
+        (normalizeCoveringRec fuel geo (newCoverer (tempOptions cfg)) (geo cu)) := by
+      rw [newCoverer_optionsOf h]
+      exact startOK_of_temp_res h (ih _ (newCoverer_ok _) _ (hgeo cu))
+    have := coveringWith_res heapLawful (optionsOf cfg) false (cellUnionRegion cu) _ hs c hc
+    rwa [newCoverer_optionsOf h] at this
 
 /-- the full-strength level claim for `FastCovering` ("All of the usual parameters are respected
-    (MaxCells, MinLevel, MaxLevel, and LevelMod)", regioncoverer.go) -/
+    (MaxCells, MinLevel, MaxLevel, and LevelMod)", regioncoverer.go): every configuration (any ints),
+    every bound of valid cells, every depth of the re-cover recursion, every geometry oracle. -/
 def FastCoveringLevels : Prop :=
-  ∀ (o : Options) (innerStart : CU → CU) (bound : CU), InnerStartOK innerStart →
+  ∀ (fuel : Nat) (geo : CU → CU) (o : Options) (bound : CU), (∀ cu, ∀ c ∈ geo cu, isValid c = true) →
     (∀ c ∈ bound, isValid c = true) →
-    ∀ c ∈ fastCovering o (recoverDefault innerStart) bound, LevelsOK (newCoverer o) c
+    ∀ c ∈ fastCoveringRec fuel geo o bound, LevelsOK (newCoverer o) c
 
-/-- The concrete failing run (replayed on the Go code: `Cap` of 0.05 rad centred at the centre of
-    cell 0/12, `RegionCoverer{MinLevel:0, MaxLevel:30, LevelMod:3, MaxCells:-5000}.FastCovering`
-    returns the level-2 cell 0x0d00000000000000).  `bound` is that cap's `CellUnionBound()` (four
-    level-3 siblings); they are merged by `Normalize`, split again by `Denormalize(0,3)`, found
-    non-canonical, `excess*len = 5004*4 > 10000`, and re-covered with DEFAULT options, which
-    returns their level-2 parent: `(2 - 0) % 3 ≠ 0`. -/
-theorem s18_run : fastCovering ⟨0, 30, 3, -5000⟩
-    (recoverDefault (fun _ => [0x1000000000000000, 0x5000000000000000, 0x9000000000000000]))
+/-- (1c) S18 REPAIRED: `FastCovering` honours MinLevel, MaxLevel and LevelMod for all configurations
+    (before repair e130a30 this was false: the re-cover branch used `NewRegionCoverer()`). -/
+theorem fastCovering_levels : FastCoveringLevels := by
+  intro fuel geo o bound hgeo hb c hc
+  exact levelsOK_of_res (normalizeCoveringRec_res geo hgeo fuel _ (newCoverer_ok o) bound hb c hc)
+
+/-- the former S18 input (Cap of 0.05 rad at the centre of cell 0/12, `{0, 30, LevelMod 3, MaxCells -5000}`,
+    `CellUnionBound()` = four level-3 siblings; the inner cap bound = faces 0,1,2): the old code
+    returned the level-2 parent `0x0d00…`, the repaired code returns face 0. -/
+example : fastCoveringRec 3 (fun _ => [0x1000000000000000, 0x5000000000000000, 0x9000000000000000])
+    ⟨0, 30, 3, -5000⟩
     [0x0d40000000000000, 0x0cc0000000000000, 0x0dc0000000000000, 0x0c40000000000000]
-      = [0x0d00000000000000] := by
-  simp only [fastCovering, normalizeCovering, preNormalize, recoverDefault, covering, cellUnionWith,
-    coveringWith, coveringInternal, normalize, sortIDs_eq_isort]
+      = [0x1000000000000000] := by
+  simp only [fastCoveringRec, normalizeCoveringRec, normalizeCovering, preNormalize, recoverOwn, covering,
+    cellUnionWith, coveringWith, coveringInternal, normalize, sortIDs_eq_isort]
   decide +kernel
 
-/-- (1c) S18 settled: `FastCovering` does NOT honour `LevelMod` for all configurations. -/
-theorem fastCovering_levels_false : ¬ FastCoveringLevels := by
-  intro h
-  have h1 := h ⟨0, 30, 3, -5000⟩ (fun _ => [0x1000000000000000, 0x5000000000000000, 0x9000000000000000])
-    [0x0d40000000000000, 0x0cc0000000000000, 0x0dc0000000000000, 0x0c40000000000000]
-    (by intro cu c hc
-        simp only [List.mem_cons, List.not_mem_nil, or_false] at hc
-        rcases hc with rfl | rfl | rfl <;> decide +kernel)
-    (by intro c hc
-        simp only [List.mem_cons, List.not_mem_nil, or_false] at hc
-        rcases hc with rfl | rfl | rfl | rfl <;> decide +kernel)
-    0x0d00000000000000 (by rw [s18_run]; simp)
-  have h2 := h1.2.2.1
-  revert h2
-  decide +kernel
-
-/-- (1c, partial) `FastCovering` honours MinLevel, MaxLevel and LevelMod for every configuration and
-    every bound of valid cells, PROVIDED `normalizeCovering` does not take its
-    `NewRegionCoverer().Covering(covering)` branch (`takesRecover = false`: the covering is small
-    enough, canonical, or `excess*len ≤ 10000`).  `recover` is arbitrary.  The excluded branch is
-    exactly where the claim fails (`fastCovering_levels_false`).  What is missing for the full
-    statement `FastCoveringLevels`: nothing provable — it is false. -/
-theorem fastCovering_levels_partial (o : Options) (recover : CU → CU) (bound : CU)
+/-- (1c, auxiliary) the same with the re-cover branch abstracted to an ARBITRARY function, when that
+    branch is not taken (`takesRecover = false`) — this is the form the oracle uses, where `recover`
+    is the implementation's own output. -/
+theorem fastCovering_levels_norecover (o : Options) (recover : CU → CU) (bound : CU)
     (hb : ∀ c ∈ bound, isValid c = true) (hnr : takesRecover (newCoverer o) bound = false) :
     ∀ c ∈ fastCovering o recover bound, LevelsOK (newCoverer o) c :=
   fun c hc => levelsOK_of_res (fastCovering_res o recover bound hb hnr c hc)
@@ -214,16 +243,19 @@ theorem startCells_ok (o : Options) (recover : CU → CU) (bound : CU) (hb : ∀
   obtain ⟨k, hk, hkm⟩ := startCells_cellAt o recover bound hb hnr c hc
   exact ⟨(isValid_iff c).mpr ⟨k, hk⟩, by rw [hk.level_eq]; exact hkm⟩
 
-/-- (1a) end to end, from `Region.CellUnionBound()` on: `Covering`/`InteriorCovering` computed from the
-    start cells the code itself derives (`initialCandidates`) respect the level limits, for every
-    configuration and region, as long as the temporary `FastCovering` inside `initialCandidates`
-    does not take the re-cover branch (it cannot for `MaxCells ≥ 0` and the ≤ 6-cell bounds of the
-    library's regions, where `excess*len ≤ 36`; with `MaxCells ≤ -2497` it can). -/
-theorem covering_levels_from_bound (o : Options) (interior : Bool) (R : Region) (recover : CU → CU) (bound : CU)
-    (hb : ∀ c ∈ bound, isValid c = true)
-    (hnr : takesRecover (newCoverer (tempOptions (newCoverer o))) bound = false) :
-    ∀ c ∈ coveringWith heapOps o interior R (startCells o recover bound), LevelsOK (newCoverer o) c :=
-  coveringWith_levels heapLawful o interior R _ (startCells_ok o recover bound hb hnr)
+/-- the start cells the code derives in `initialCandidates` (recursion spelled out) meet `StartOK` -/
+theorem startCellsRec_ok (fuel : Nat) (geo : CU → CU) (o : Options) (bound : CU)
+    (hgeo : ∀ cu, ∀ c ∈ geo cu, isValid c = true) (hb : ∀ c ∈ bound, isValid c = true) :
+    StartOK (newCoverer o) (startCellsRec fuel geo o bound) :=
+  startOK_of_temp_res (newCoverer_ok o) (normalizeCoveringRec_res geo hgeo fuel _ (newCoverer_ok _) bound hb)
+
+/-- (1a) END TO END, from `Region.CellUnionBound()` on, no side condition left: `Covering` /
+    `InteriorCovering` computed from the start cells the code itself derives respect the level
+    limits, for every configuration (any ints), every abstract region, every valid bound. -/
+theorem covering_levels_from_bound (fuel : Nat) (geo : CU → CU) (o : Options) (interior : Bool) (R : Region) (bound : CU)
+    (hgeo : ∀ cu, ∀ c ∈ geo cu, isValid c = true) (hb : ∀ c ∈ bound, isValid c = true) :
+    ∀ c ∈ coveringWith heapOps o interior R (startCellsRec fuel geo o bound), LevelsOK (newCoverer o) c :=
+  coveringWith_levels heapLawful o interior R _ (startCellsRec_ok fuel geo o bound hgeo hb)
 
 /-! ### (4) totality -/
 
@@ -371,6 +403,62 @@ theorem interiorCovering_inside {ops : PQOps Q} (law : LawfulPQ ops) (hN : Norma
   obtain ⟨e1, e2⟩ := coveringWith_leaves law hN hD o true R start hs n hn
   have := rawResult_interior law o R P hC start hs n hn
   exact ⟨by rw [e1]; exact this, by rw [e2]; exact this⟩
+
+/-! ### the named hypotheses are theorems of C11 -/
+
+theorem normalizeLeaves_holds : NormalizeLeaves :=
+  fun cu hv n hn => S2Proofs.C11.normalize_leaves cu hv n hn
+
+theorem denormalizeLeaves_holds : DenormalizeLeaves :=
+  fun cu minLevel levelMod hmin h1 h3 hv n hn =>
+    (S2Proofs.C11.denormalize_leaves cu minLevel levelMod hv hmin ⟨h1, h3⟩).2.1 n hn
+
+/-- (2b) without named hypotheses: `Covering` and `CellUnion` cover every leaf of the region, for
+    Go's own queue order. -/
+theorem covering_covers_heap (o : Options) (R : Region) (P : Nat → Prop) (hI : IntersectsSafe R P) (start : CU)
+    (hs : StartOK (newCoverer o) start) (hcov : ∀ n, n % 2 = 1 → P n → coversLeaf start n = true) :
+    ∀ n, n % 2 = 1 → P n →
+      coversLeaf (covering o R start) n = true ∧ coversLeaf (cellUnion o R start) n = true :=
+  covering_covers heapLawful normalizeLeaves_holds denormalizeLeaves_holds o R P hI start hs hcov
+
+/-- (3b) without named hypotheses: every leaf of `InteriorCovering` / `InteriorCellUnion` is in the region. -/
+theorem interiorCovering_inside_heap (o : Options) (R : Region) (P : Nat → Prop) (hC : ContainsSafe R P) (start : CU)
+    (hs : StartOK (newCoverer o) start) :
+    ∀ n, n % 2 = 1 →
+      (coversLeaf (interiorCovering o R start) n = true → P n) ∧
+      (coversLeaf (interiorCellUnion o R start) n = true → P n) :=
+  interiorCovering_inside heapLawful normalizeLeaves_holds denormalizeLeaves_holds o R P hC start hs
+
+/-! ### the merge loop of normalizeCovering ends (repair cd338c8: the hang is gone) -/
+
+/-- the covering handed to the size test / merge loop of `normalizeCovering` is a valid (sorted,
+    pairwise disjoint) cell union, for every configuration and every bound of valid cells -/
+theorem preNormalize_valid (o : Options) (bound : CU) (hb : ∀ c ∈ bound, isValid c = true) :
+    isValidCU (preNormalize (newCoverer o) bound) = true := by
+  have h := newCoverer_ok o
+  have hcl : AllValid (clampLevels (newCoverer o) bound) := fun c hc => by
+    obtain ⟨k, hk, _⟩ := clampLevels_top h bound hb c hc; exact isCell_valid hk
+  have hn := S2Proofs.C11.normalize_isValidCU _ hcl
+  unfold preNormalize
+  simp only []
+  split
+  · exact S2Proofs.C11.denormalize_valid _ _ _ hn h.min_le ⟨h.mod_ge, h.mod_le⟩
+  · exact hn
+
+/-- (4b) THE HANG IS GONE: for every configuration (any ints) and every bound of valid cells — leaf
+    cells included — the `for len(*covering) > c.maxCells` loop of `normalizeCovering` ends by one of
+    its own exit tests (`len ≤ maxCells`, or no adjacent pair with a common ancestor at `minLevel` or
+    above): every round strictly shortens the covering (`mergeLoop_round_shrinks`), so the fuel
+    `len(covering)` of the model is never what stops it, and more fuel changes nothing. -/
+theorem normalizeCovering_merge_terminates (o : Options) (bound : CU) (hb : ∀ c ∈ bound, isValid c = true) (k : Nat) :
+    let cov := preNormalize (newCoverer o) bound
+    MergeDone (newCoverer o) (mergeLoop (newCoverer o) cov.length cov) ∧
+      mergeLoop (newCoverer o) (cov.length + k) cov = mergeLoop (newCoverer o) cov.length cov ∧
+      isValidCU (mergeLoop (newCoverer o) cov.length cov) = true := by
+  intro cov
+  obtain ⟨hv, hs⟩ := (isValidCU_iff cov).mp (preNormalize_valid o bound hb)
+  obtain ⟨hd, hv', hs', _⟩ := mergeLoop_done (newCoverer o) cov.length cov hv hs (Nat.le_refl _)
+  exact ⟨hd, mergeLoop_fuel_suffices (newCoverer o) hv hs k, (isValidCU_iff _).mpr ⟨hv', hs'⟩⟩
 
 /-! ### (5) isCanonical -/
 
